@@ -3,7 +3,7 @@ import EdpVerif.Impl.TableTie
 import EdpVerif.Lemmas.DecTotal
 import EdpVerif.Lemmas.DistHeader
 import EdpVerif.Lemmas.DecMeter
-import EdpVerif.Generated.Misc
+import EdpVerif.Generated.MiscC02
 /-
 C02 — decoding untrusted bytes always returns: no panic, abort, overflow or blow-up.
 The model makes every Rust panic site an explicit outcome (`DErr.panic`), so "never panics" is a theorem and not a
